@@ -15,9 +15,10 @@ RULE = ('every transfer type/mode x every outcome (success; one run per fault po
         'request (0 allowed only if a cancel preceded it, and then no request at all); on_done exactly once per subscriber, with '
         'future.done() true, no request of the transfer still in flight or beginning later, no cleanup (abort / temp removal / write) '
         'later, no on_progress later; a raising on_done does not suppress the others; a provided size suppresses HeadObject; '
-        'also: duck-typed partial subscribers, on_queued/on_done ordering (no on_queued after or around an on_done of the same transfer); non-trivial = on_done observed for every subscriber and at least one S3 request or a cancel-before-start; distinct = (shape, '
+        'also: subscribers whose on_done hands the future to another thread that calls result() and waits for it (must be answered while on_done runs); duck-typed partial subscribers, on_queued/on_done ordering (no on_queued after or around an on_done of the same transfer); non-trivial = on_done observed for every subscriber and at least one S3 request or a cancel-before-start; distinct = (shape, '
         'interleaving signature)')
-ASSUMPTIONS = ['result()-does-not-block inside on_done is probed by the re-entrant subscriber families of C04']
+ASSUMPTIONS = ['result()-does-not-block inside on_done: same-thread calls are probed by the re-entrant subscriber families of C04; calls from '
+               'ANOTHER thread while on_done runs are probed here (result_other_thread subscribers, verdict at quiescence)']
 CASE_TIMEOUT = 120.0
 
 SUBS_MENU = [
@@ -26,6 +27,9 @@ SUBS_MENU = [
     [{'only': ['on_queued', 'on_done']}, {'only': ['on_progress']}, {}],
     [{}, {'raise_on_done': True}, {}],
     [{'raise_on_done': True}, {}],
+    [{'reenter': {'on_done': ['result_other_thread']}}, {}],
+    [{}, {'only': ['on_done'], 'reenter': {'on_done': ['result_other_thread']}}],
+    [{'raise_on_done': True}, {'reenter': {'on_done': ['result_other_thread', 'done']}}],
 ]
 
 
@@ -159,7 +163,9 @@ def evaluate(obs):
     viol = []
     stats = {'on_done_seen': 0, 'on_queued_seen': 0, 'progress_seen': 0, 'cancel_fired': 1 if obs.cancel_events else 0,
              'faults_hit': len(obs.world.director.raised), 'window_hits': len(obs.injector.window_hits) if obs.injector else 0,
-             'raising_on_done': 0, 'size_provided': 0, 'not_started': 0}
+             'raising_on_done': 0, 'size_provided': 0, 'not_started': 0,
+             'result_probes': len([e for e in obs.events if e['kind'] == 'cb.result_probe']),
+             'result_probes_answered': len([e for e in obs.events if e['kind'] == 'cb.result_probe' and e.get('answered')])}
     fam = obs.spec.get('family')
     nontrivial = False
     for x in obs.xfers:
